@@ -175,7 +175,8 @@ def check_packet(run, case):
     # ---- receivers that accept every unit: the single-context server's call (units [0], single=True) and a unit list holding
     # 0 or 255; the frame is for SOME unit (any of the 256), it must be delivered with that unit id
     if ok and not regs and framing != 'tls':
-        for units, single in (([0], True), ([0], False), ([0xFF], False), (0, None)):
+        # ... and unit filters given as a tuple or holding several ids (the frame's own among them)
+        for units, single in (([0], True), ([0], False), ([0xFF], False), (0, None), ((uid,), False), ((1, uid, 250), False), ([2, uid], False), ((uid, 3), None)):
             got = []
             run.count('accept_all_roundtrips')
             try:
